@@ -14,7 +14,9 @@ RULE = ("a case is one (UI state, event) pair executed through the real update()
         "from the start-up state (selection 0, COUNT, descending, no search) for every table size 0..N over the event "
         "alphabet {chars j k g q a c v . f l - / x Q A J space, Esc Enter Backspace Up Down Home PageUp PageDown End Tab "
         "Left Right Delete, Tick(0), Tick(80), Error}; search queries are expanded up to the stated length; distinct = "
-        "distinct (state, event) pairs; non-trivial = the event changed the state")
+        "distinct (state, event) pairs; non-trivial = the event changed the state; in addition random walks (800 x 80 steps quick, 4000 x 400 thorough) "
+        "feed each step the state the previous one produced: search queries far beyond the breadth-first bound, characters of 1-4 bytes, regular-expression "
+        "metacharacters, long runs of navigation keys")
 
 ASSUMPTIONS = [
     "the abstract state (rows, selected, search mode, query, sort key, order, quit, width) is everything update() reads or writes",
@@ -149,6 +151,73 @@ def explore(rep, binary, pool, sizes, qmax, expand_chars, max_states):
     return not truncated
 
 
+WIDE_CHARS = ["é", "ß", "ø", "Ж", "日", "本", "😀", "\u0301", "\u00a0", "ﬁ", "𝒳", "(", "[", "\\", "*", "+", "?", "{", "|", "^", "$", ".", "a", "B", "7", " ", "x", "q", "j"]
+
+
+def deep_walks(rep, binary, pool, sizes, nwalk, steps, seed):
+    """random walks of `steps` events through the real update(), each step fed the state the previous one produced: reaches
+    what the breadth-first bound cuts off (long search queries, characters of 2, 3 and 4 bytes, long runs of one key)"""
+    import random
+    rng = random.Random(seed ^ 0xC17D)
+    start = lambda: {"n": rng.choice(sizes), "selected": 0, "search": False, "query": "", "sort": "COUNT", "asc": False, "quit": False, "width": 0}
+    walkers = [start() for _ in range(nwalk)]
+    styles = [rng.choice(["typist", "typist", "navigator", "mixed"]) for _ in range(nwalk)]
+    evs = events()
+    longest = 0
+    for step in range(steps):
+        lines = []
+        for w, st in zip(walkers, styles):
+            if w["quit"]:
+                w.update(start())
+            if st == "typist" or (st == "mixed" and rng.random() < 0.5):
+                if not w["search"]:
+                    e = {"char": "/"} if rng.random() < 0.8 else rng.choice(evs)
+                else:
+                    r = rng.random()
+                    e = {"char": rng.choice(WIDE_CHARS)} if r < 0.9 else {"code": "Backspace"} if r < 0.96 else rng.choice(evs)
+            else:
+                e = rng.choice(evs) if rng.random() < 0.7 else {"char": rng.choice(["j", "k", "g", "J", "K", "G"])}
+            lines.append({"state": w, "event": e})
+        chunks = [lines[i::16] for i in range(16)]
+        idx = [list(range(len(lines)))[i::16] for i in range(16)]
+        logs = pool.starmap(drive, [(binary, "tui", c) for c in chunks if c])
+        k = 0
+        for c, ix in zip(chunks, idx):
+            if not c:
+                continue
+            log = logs[k]
+            k += 1
+            if len(log) != len(c):
+                raise Inconclusive(f"tui driver answered {len(log)} of {len(c)} transitions (deep walk)")
+            for cmd, res, wi in zip(c, log, ix):
+                rep.evaluations += 1
+                before, after = res.get("before"), res.get("after")
+                if res.get("result") == "bad-event" or before is None:
+                    raise Inconclusive(f"tui driver rejected {cmd}")
+                e = cmd["event"]
+                rep.cls("deep-walk:steps")
+                verdicts = judge(before, e, after, res.get("result"), res.get("panic"))
+                for cname, text in verdicts:
+                    name = ev_name(e) if len(ev_name(e)) < 12 and ev_name(e).isascii() else "char:non-ascii"
+                    sig = f"C17:{cname}:{name}" if cname in ("panic", "selection-range") else f"C17:{cname}"
+                    rep.violation(sig, text, {"mode": "tui", "state": cmd["state"], "event": e})
+                if res.get("result") != "ok" or verdicts:
+                    walkers[wi] = start()
+                    continue
+                if key_of(after) != key_of(before):
+                    rep.hashes.add(hash((key_of(before), ev_name(e))))
+                q = after["query"]
+                longest = max(longest, len(q.encode()))
+                if len(q.encode()) >= 24:
+                    rep.cls("deep-walk:query>=24-bytes")
+                if any(ord(ch) > 127 for ch in q):
+                    rep.cls("deep-walk:query-with-multi-byte-characters")
+                walkers[wi] = after
+    rep.mx("deep_walk_longest_query_bytes", longest)
+    rep.extra["deep_walks"] = nwalk
+    rep.extra["deep_walk_steps"] = steps
+
+
 def run(tier, seed, binary, pool):
     rep = Rep("C17")
     rep.rule = RULE
@@ -164,6 +233,8 @@ def run(tier, seed, binary, pool):
                               "event:Tick(80)", "event:Error"]
     complete = explore(rep, binary, pool, sizes, qmax, expand, 2_000_000)
     rep.exhaustive = complete
+    deep_walks(rep, binary, pool, sizes, 800 if tier == "quick" else 4000, 80 if tier == "quick" else 400, seed)
+    rep.extra["mandatory"] += ["deep-walk:steps", "deep-walk:query>=24-bytes", "deep-walk:query-with-multi-byte-characters"]
     # the real terminal interface in a pseudo-terminal (key bytes -> crossterm -> tui.rs -> update() -> table.rs)
     import os
     import sysjet
